@@ -281,3 +281,32 @@ func ZZ_C14_conc() {
 	}
 	vpJoin()
 }
+
+// C14-stable: what a reader was handed stays a pair that was stored. The
+// buffer's data is append-only: a slice returned by Get/Find or shown by an
+// iterator keeps its contents through any later write, including an overwrite
+// of the same key with a shorter, equal or longer value (readers copy such
+// slices after the lock is dropped, beside a running writer).
+func ZZ_C14_stable() {
+	db, m := zzBuild(2, 0, zzMaxVal)
+	k := zzBytes(zzMinKey, zzMaxKey)
+	_, ok := m.find(k)
+	if !ok {
+		vpAssume(false)
+	}
+	v, err := db.Get(k)
+	vpAssert(err == nil, "get-found")
+	it := db.NewIterator(nil)
+	vpAssert(it.Seek(k), "iterator-finds-it")
+	iv := it.Value()
+	saved := append([]byte(nil), v...)
+	// any later write
+	k2 := k
+	if vpChoose(2) == 1 {
+		k2 = zzBytes(zzMinKey, zzMaxKey)
+	}
+	vpAssert(db.Put(k2, zzBytes(0, zzMaxVal)) == nil, "put-ok")
+	vpAssert(len(v) == len(saved) && vpEqBytes(v, saved), "value-handed-out-by-get-stays-a-stored-pair")
+	vpAssert(len(iv) == len(saved) && vpEqBytes(iv, saved), "value-shown-by-iterator-stays-a-stored-pair")
+	it.Release()
+}
